@@ -19,10 +19,10 @@ E1 (explicit-state exploration on the real objects)
     whether the key's position is reserved, so the keyed model is a SET of candidate dicts (fork: nothing happened /
     position reserved); while a refused key is pending only access by key / attribute / `in` of the other keys is
     judged; once every pending key has been assigned or deleted the full read-out must equal ONE candidate (the
-    object must be a consistent map again).  Deviation bound: at most 1 (quick) / 2 (thorough) refused new keys
-    pending at a time.  Collector (configurations with declared columns): dict rows with a missing / an extra
-    name; if refused, the collector must still hold exactly the model's rows (no partial append); if accepted the
-    case is not judged and not explored further.
+    object must be a consistent map again).  Deviation bound: at most 1 refused new key pending at a time
+    (thorough: an additional 4-key run with 2 pending).  Collector (configurations with declared columns): dict
+    rows with a missing / an extra name; if refused, the collector must still hold exactly the model's rows (no
+    partial append); if accepted the case is not judged and not explored further.
   * Guard for the de-duplication argument: ALL operation sequences up to a smaller depth are executed unpruned.
 E2 (complete enumeration)
   * DataPlotGrid: every (n, ncols, list|dict, normal|transposed): data cells + missing cells are pairwise distinct,
@@ -73,8 +73,10 @@ FIELDS = ["p", "q"]
 RECS = [[1, 2.5], [0, "x"], [None, "yy"]]          # records (second one starts with a falsy value)
 PT = dict(
     quick=dict(keys="abcd", nrec=2, depth=6, useq=3, urec=3, upos=5, pending=1),
-    thorough=dict(keys="abcde", nrec=2, depth=7, useq=4, urec=3, upos=6, pending=2),
+    thorough=dict(keys="abcde", nrec=2, depth=7, useq=4, urec=3, upos=6, pending=1),
 )
+# additional keyed-table BFS runs (thorough): fewer keys, two refused new keys pending at a time
+PT_EXTRA = dict(quick=[], thorough=[dict(keys="abcd", nrec=2, depth=7, useq=0, urec=3, upos=5, pending=2)])
 ROWS = [[1, "b"], [2, "a"], [1, "a"], [3, "c"]]     # ties on both columns
 ROWS_T = [[1, "b"], [2, "a"], [1, "a"], [3, "cc"]]  # typed array mode: one string longer than one character
 ROWS_N = [[1, 2.5], [2, 1.5], [1, 1.5], [3, 0.0]]   # numeric rows for float64 array columns
@@ -738,7 +740,7 @@ def _size(part, model):
     return len(model[0]) if model and isinstance(model[0], dict) else len(model)
 
 
-def _bfs(part, name, cfg, depth, sh):
+def _bfs(part, name, cfg, depth, sh, label=""):
     pre = "%s-%s" % (part, name)
     seen = {}
     frontier = []
@@ -784,9 +786,9 @@ def _bfs(part, name, cfg, depth, sh):
                         sh.sample(dict(part=pre, history=h))
         sh.max_depth = max(sh.max_depth, d)
         frontier = nxt
-    sh.add_extra("bfs_states_" + pre, len(seen))
-    sh.add_extra("bfs_levels_" + pre, d)
-    sh.add_extra("bfs_closed_" + pre, 0 if frontier else 1)    # 1: fixed point, every reachable state expanded
+    sh.add_extra("bfs_states_" + pre + label, len(seen))
+    sh.add_extra("bfs_levels_" + pre + label, d)
+    sh.add_extra("bfs_closed_" + pre + label, 0 if frontier else 1)    # 1: fixed point, every reachable state expanded
 
 
 def _seq(part, name, cfg, depth, first, sh):
@@ -987,6 +989,8 @@ def _comb_case(shape, variant, patterns=None):
 # ================================================================================================ module API
 def plan(tier, seed):
     shards = [("bfs", "pt", "keyed", tier), ("bfs", "pt", "unkeyed", tier)]
+    for i in range(len(PT_EXTRA[tier])):
+        shards.append(("bfs", "pt", "keyed", tier, i))
     for name in RC_CFG:
         shards.append(("bfs", "rc", name, tier))
     for name in ("keyed", "unkeyed"):
@@ -1010,10 +1014,12 @@ def run_shard(desc):
     sh = Shard(PROPERTY)
     kind = desc[0]
     if kind == "bfs":
-        _, part, name, tier = desc
+        part, name, tier = desc[1:4]
         cfg = PT[tier] if part == "pt" else None
-        depth = PT[tier]["depth"] if part == "pt" else RC[tier]["depth"]
-        _bfs(part, name, cfg, depth, sh)
+        if len(desc) > 4:
+            cfg = PT_EXTRA[tier][desc[4]]
+        depth = cfg["depth"] if part == "pt" else RC[tier]["depth"]
+        _bfs(part, name, cfg, depth, sh, label="" if len(desc) == 4 else "-x%d" % desc[4])
     elif kind == "seq":
         _, part, name, tier, first = desc
         cfg = PT[tier] if part == "pt" else None
@@ -1125,8 +1131,8 @@ MANIFEST = dict(
          "of DataPlotGrid (n 0..12, ncols 1..6, list/dict, normal/transposed: exact cover, index order, "
          "row/column-major) and DataCombination (all 85 shapes of 0-3 item lists of length 0-3 in 3 value variants, "
          "and all 820 tuples of equality patterns inside the item lists rendered as repeated labels, ==-equal values "
-         "of different type and unhashable equal values, vs a nested-loop product). Thorough: 5 keys, 2 pending "
-         "refusals, depth 7/6, unpruned depth 4, n 0..40 x ncols 1..12, 0-4 lists of length 0-4, patterns to length 4.",
+         "of different type and unhashable equal values, vs a nested-loop product). Thorough: 5 keys (plus a 4-key run with 2 pending "
+         "refusals), depth 7/6, unpruned depth 4, n 0..40 x ncols 1..12, 0-4 lists of length 0-4, patterns to length 4.",
     note="Trusted: Python dict/list semantics as the model, canonicalisation of vars(object) as the complete state. "
          "Not covered: negative positions, integer keys, ragged rows, mixed-type columns, order among tied rows, the "
          "state between a refused assignment of a new key and its retry, to_dataframe/to_text; histories beyond the "
